@@ -211,12 +211,12 @@ def shards(tier, seed):
                         kwargs=dict(registry="builtin", version=3, max_len=2, cap=2, firsts=without, backgrounds=1), budget=150, per_path=30))
         out.append(dict(name="B-pipe0-empty", fn="h_pipeline", kwargs=dict(registry="builtin", version=3, max_len=0, cap=3), budget=60, per_path=30))
         out.append(dict(name="B-pipe2-revpref-CONDITIONAL_EFFECTS_REMOVING", fn="h_pipeline",
-                        kwargs=dict(registry="builtin", version=3, max_len=2, cap=4, first="CONDITIONAL_EFFECTS_REMOVING", rev_pref=True),
+                        kwargs=dict(registry="builtin", version=3, max_len=2, cap=3, first="CONDITIONAL_EFFECTS_REMOVING", rev_pref=True),
                         budget=150, per_path=30))
         out.append(dict(name="B-pipe2-ext-MA_CENTRALIZATION", fn="h_pipeline",
                         kwargs=dict(registry="ext", version=3, max_len=2, cap=3, first="MA_CENTRALIZATION", backgrounds=1), budget=150, per_path=30))
         out.append(dict(name="B-pipe2-v2-USERTYPE_FLUENTS_REMOVING", fn="h_pipeline",
-                        kwargs=dict(registry="builtin", version=2, max_len=2, cap=4, first="USERTYPE_FLUENTS_REMOVING"), budget=150, per_path=30))
+                        kwargs=dict(registry="builtin", version=2, max_len=2, cap=3, first="USERTYPE_FLUENTS_REMOVING"), budget=150, per_path=30))
     else:
         for first in with_compiler:
             out.append(dict(name=f"B-pipe3-{first}", fn="h_pipeline", kwargs=dict(registry="builtin", version=3, max_len=3, cap=4, first=first),
